@@ -6,5 +6,5 @@ From Quiver Require Import Base.
 From Quiver Require Import sel.Select sel.SelectSpec.
 Extraction Language OCaml.
 Extraction "extracted/select_model.ml"
-  initial step apply_event run next_timeout select_spec
+  initial step step_action expired apply_event run next_timeout select_spec
   handle_process_results env_run delivered latest.
